@@ -22,3 +22,4 @@ PROP = {'engine': 'stack',
  'level_note': 'a restore request before initialisation completed is outside the protocol and not generated',
  'technique': 'property-based testing (rapid): generated behaviours and timings, history invariant with sequence numbers and one-sided time bounds, '
               'independent sanitiser specification'}
+PROP['rule'] += ' Round-4 addition: runtime kinds slowinit (still initialising for 1.3-1.8 s when the restore comes) and busy (working on an invocation for that long): the restore returns success within 1 s (the runtime never entered the restore poll) and the invocation in progress completes normally.'
